@@ -118,20 +118,31 @@ type tabObj[K comparable] struct {
 	del map[K]bool // keys deleted at least once and currently absent
 }
 
+// seqObj: an iter.Seq2 returned by All(): a handle on its table (every run lists the table as it is then).
 type seqObj[K comparable] struct {
-	tid   int
-	valid bool
-	seq   iter.Seq2[K, int]
-	snap  map[K]int // what the table held when All() was called (= what it holds as long as the sequence is valid)
+	tid     int
+	seq     iter.Seq2[K, int]
+	changed bool // the table has been changed since the sequence was obtained
 }
 
+// pullObj: a traversal iter.Pull2(seq). phase: 0 not started (nothing listed yet), 1 running, 2 over, 3 broken (its
+// table was changed while it was running).
 type pullObj[K comparable] struct {
-	sid  int
-	live bool
-	next func() (K, int, bool)
-	stop func()
-	seen map[K]bool
+	tid   int
+	phase int
+	next  func() (K, int, bool)
+	stop  func()
+	seen  map[K]bool
+	snap  map[K]int // what the table held when the traversal started
+	sq    *seqObj[K]
 }
+
+const (
+	phFresh = iota
+	phRunning
+	phDone
+	phBroken
+)
 
 // fastM reads the capacity field of a table without building a snapshot of its slots (-1: no such field).
 func fastM(t any) (m int) {
@@ -291,18 +302,22 @@ func execTables[K comparable](c hx.Case, mode Mode, kc *keyCodec[K]) hx.Result {
 			}
 		}
 	}()
-	// a change of table i ends the sequences and traversals of table i
+	// a change of table i breaks the traversals of table i that are half-way (started, not over); sequences and
+	// traversals that have not started are unaffected: they list the table when they are run
 	invalidate := func(i int) {
-		for _, s := range seqs {
-			if s.tid == i {
-				s.valid = false
+		for _, q := range seqs {
+			if q.tid == i {
+				q.changed = true
 			}
 		}
 		for _, p := range pulls {
-			if seqs[p.sid].tid == i && p.stop != nil {
-				stop := p.stop
-				p.stop, p.next = nil, nil
-				hx.Try(stop)
+			if p.tid == i && p.phase == phRunning {
+				p.phase = phBroken
+				if p.stop != nil {
+					stop := p.stop
+					p.stop, p.next = nil, nil
+					hx.Try(stop)
+				}
 			}
 		}
 	}
@@ -314,7 +329,7 @@ func execTables[K comparable](c hx.Case, mode Mode, kc *keyCodec[K]) hx.Result {
 		return o
 	}
 	newSeq := func(i int) *seqObj[K] {
-		s := &seqObj[K]{tid: i, valid: true, seq: tabs[i].t.All(), snap: copyMap(tabs[i].orc)}
+		s := &seqObj[K]{tid: i, seq: tabs[i].t.All()}
 		seqs = append(seqs, s)
 		return s
 	}
@@ -598,49 +613,56 @@ func execTables[K comparable](c hx.Case, mode Mode, kc *keyCodec[K]) hx.Result {
 						out = "bad-op"
 						return
 					}
-					if s >= len(seqs) || !seqs[s].valid {
+					if s >= len(seqs) {
 						out = "ok invalid"
 						return
 					}
 					next, stop := iter.Pull2(seqs[s].seq)
-					pulls = append(pulls, &pullObj[K]{sid: s, live: true, next: next, stop: stop, seen: map[K]bool{}})
+					pulls = append(pulls, &pullObj[K]{tid: seqs[s].tid, phase: phFresh, next: next, stop: stop, seen: map[K]bool{}, sq: seqs[s]})
 					out = "ok pull=" + strconv.Itoa(len(pulls)-1)
-					liveOnTable := 0
-					for _, p := range pulls {
-						if p.live && p.next != nil && seqs[p.sid].valid && seqs[p.sid].tid == seqs[s].tid {
-							liveOnTable++
-						}
-					}
-					if liveOnTable >= 2 {
-						tags["two-traversals-of-one-table-alive"] = true
-					}
 				case "next":
 					p := arg(1)
 					if _, err := strconv.Atoi(f[1]); err != nil || p < 0 {
 						out = "bad-op"
 						return
 					}
-					if p >= len(pulls) || !seqs[pulls[p].sid].valid {
+					if p >= len(pulls) || pulls[p].phase == phBroken {
 						out = "ok invalid"
 						return
 					}
 					pl := pulls[p]
-					sq := seqs[pl.sid]
-					if !pl.live || pl.next == nil {
+					if pl.phase == phDone || pl.next == nil {
 						out = "ok done"
 						return
 					}
+					if pl.phase == phFresh {
+						// the traversal starts now: it must list the table as it is now
+						pl.phase = phRunning
+						pl.snap = copyMap(tabs[pl.tid].orc)
+						if pl.sq != nil && pl.sq.changed {
+							tags["sequence-run-after-change-of-its-table"] = true
+						}
+						running := 0
+						for _, q := range pulls {
+							if q.phase == phRunning && q.tid == pl.tid {
+								running++
+							}
+						}
+						if running >= 2 {
+							tags["two-traversals-of-one-table-alive"] = true
+						}
+					}
 					k, v, ok := pl.next()
 					if !ok {
-						pl.live = false
+						pl.phase = phDone
 						out = "ok done"
-						if len(pl.seen) != len(sq.snap) {
-							bad(i, "traversal %d ended after %d pairs, the map holds %d", p, len(pl.seen), len(sq.snap))
+						if len(pl.seen) != len(pl.snap) {
+							bad(i, "traversal %d ended after %d pairs, the map holds %d", p, len(pl.seen), len(pl.snap))
 						}
 						return
 					}
 					out = "ok " + showPair(k, v)
-					if w, held := sq.snap[k]; !held || w != v || pl.seen[k] {
+					if w, held := pl.snap[k]; !held || w != v || pl.seen[k] {
 						bad(i, "traversal %d yields (%s,%d) which the map does not hold (or yields it twice)", p, kc.show(k), v)
 					}
 					pl.seen[k] = true
@@ -655,7 +677,9 @@ func execTables[K comparable](c hx.Case, mode Mode, kc *keyCodec[K]) hx.Result {
 						return
 					}
 					pl := pulls[p]
-					pl.live = false
+					if pl.phase != phBroken {
+						pl.phase = phDone
+					}
 					if pl.stop != nil {
 						stop := pl.stop
 						pl.stop, pl.next = nil, nil
@@ -673,12 +697,16 @@ func execTables[K comparable](c hx.Case, mode Mode, kc *keyCodec[K]) hx.Result {
 						out = "bad-op"
 						return
 					}
-					if s >= len(seqs) || !seqs[s].valid {
+					if s >= len(seqs) {
 						out = "ok invalid"
 						return
 					}
 					sq := seqs[s]
-					pulls = append(pulls, &pullObj[K]{sid: s})
+					snapNow := copyMap(tabs[sq.tid].orc) // the sequence is run now: the table as it is now
+					if sq.changed {
+						tags["sequence-run-after-change-of-its-table"] = true
+					}
+					pulls = append(pulls, &pullObj[K]{tid: sq.tid, phase: phDone})
 					var got []string
 					seen := map[K]bool{}
 					for k, v := range sq.seq {
@@ -686,18 +714,18 @@ func execTables[K comparable](c hx.Case, mode Mode, kc *keyCodec[K]) hx.Result {
 							break
 						}
 						got = append(got, showPair(k, v))
-						if w, held := sq.snap[k]; !held || w != v || seen[k] {
+						if w, held := snapNow[k]; !held || w != v || seen[k] {
 							bad(i, "range over sequence %d yields (%s,%d) which the map does not hold (or yields it twice)", s, kc.show(k), v)
 						}
 						seen[k] = true
 					}
-					wantN := len(sq.snap)
+					wantN := len(snapNow)
 					if limit >= 0 && limit < wantN {
 						wantN = limit
 						tags["traversal-abandoned"] = true
 					}
 					if len(got) != wantN {
-						bad(i, "range over sequence %d yields %d pairs, expected %d of the %d the map holds", s, len(got), wantN, len(sq.snap))
+						bad(i, "range over sequence %d yields %d pairs, expected %d of the %d the map holds", s, len(got), wantN, len(snapNow))
 					}
 					out = "ok [" + strings.Join(got, " ") + "]"
 				case "nested":
@@ -713,7 +741,8 @@ func execTables[K comparable](c hx.Case, mode Mode, kc *keyCodec[K]) hx.Result {
 						return
 					}
 					outerSeq := newSeq(x)
-					pulls = append(pulls, &pullObj[K]{sid: len(seqs) - 1})
+					outerSnap := copyMap(tabs[x].orc)
+					pulls = append(pulls, &pullObj[K]{tid: x, phase: phDone})
 					var outer []string
 					seenOuter := map[K]bool{}
 					inner := 0
@@ -721,12 +750,13 @@ func execTables[K comparable](c hx.Case, mode Mode, kc *keyCodec[K]) hx.Result {
 					step := func(v uint64) { d = (d ^ v) * fnvPrime }
 					for k, v := range outerSeq.seq {
 						outer = append(outer, showPair(k, v))
-						if w, held := outerSeq.snap[k]; !held || w != v || seenOuter[k] {
+						if w, held := outerSnap[k]; !held || w != v || seenOuter[k] {
 							bad(i, "the outer loop of nested %d %d yields (%s,%d) which the map does not hold (or yields it twice)", x, y, kc.show(k), v)
 						}
 						seenOuter[k] = true
 						innerSeq := newSeq(y)
-						pulls = append(pulls, &pullObj[K]{sid: len(seqs) - 1})
+						innerSnap := tabs[y].orc // (nothing changes the table inside this op)
+						pulls = append(pulls, &pullObj[K]{tid: y, phase: phDone})
 						cnt := 0
 						seenInner := map[K]bool{}
 						for k2, v2 := range innerSeq.seq {
@@ -734,7 +764,7 @@ func execTables[K comparable](c hx.Case, mode Mode, kc *keyCodec[K]) hx.Result {
 							cnt++
 							step(kc.dig(k2))
 							step(uint64(v2))
-							if w, held := innerSeq.snap[k2]; !held || w != v2 || seenInner[k2] {
+							if w, held := innerSnap[k2]; !held || w != v2 || seenInner[k2] {
 								bad(i, "an inner loop of nested %d %d yields (%s,%d) which the map does not hold (or yields it twice)", x, y, kc.show(k2), v2)
 							}
 							seenInner[k2] = true
@@ -742,16 +772,16 @@ func execTables[K comparable](c hx.Case, mode Mode, kc *keyCodec[K]) hx.Result {
 								break
 							}
 						}
-						wantN := len(innerSeq.snap)
+						wantN := len(innerSnap)
 						if limit >= 0 && limit < wantN {
 							wantN = max(limit, 1)
 						}
 						if cnt != wantN {
-							bad(i, "an inner loop of nested %d %d yields %d pairs, expected %d of the %d the map holds", x, y, cnt, wantN, len(innerSeq.snap))
+							bad(i, "an inner loop of nested %d %d yields %d pairs, expected %d of the %d the map holds", x, y, cnt, wantN, len(innerSnap))
 						}
 					}
-					if len(outer) != len(outerSeq.snap) {
-						bad(i, "the outer loop of nested %d %d yields %d pairs, the map holds %d", x, y, len(outer), len(outerSeq.snap))
+					if len(outer) != len(outerSnap) {
+						bad(i, "the outer loop of nested %d %d yields %d pairs, the map holds %d", x, y, len(outer), len(outerSnap))
 					}
 					out = fmt.Sprintf("ok outer=[%s] inner=%d h=%016x", strings.Join(outer, " "), inner, d)
 					if x == y {
